@@ -99,6 +99,104 @@ def r1_getitem(report, repo):
                'lock')
 
 
+def _asdict_layers(finfo):
+  """Order in which the value sources are laid into the snapshot that
+  _asdict returns (later layers win): list of 'default' / 'loaded' / 'flag',
+  with '?<text>' for a write to the snapshot that is not understood.  Works on
+  the statement sequence, whatever else (logging, unrelated statements) is in
+  between, and on the equivalent spellings `d.update(x)`, `{**a, **b}`,
+  `dict(x)`, comprehension vs loop."""
+
+  def comp_layer(gen, key, val):
+    it = gen.iter
+    if dotted(it) == 'self._declarations' and any(
+        norm(i).endswith('.has_default') for i in gen.ifs) and \
+        norm(val).endswith('.default_value'):
+      return ['default']
+    if isinstance(it, ast.Call) and norm(it) == 'self._flag_values.items()' \
+        and isinstance(gen.target, ast.Tuple) and len(gen.target.elts) == 2:
+      k, v = [dotted(e) for e in gen.target.elts]
+      if dotted(key) == k and dotted(val) == v and any(
+          _membership(i, k, '_declarations') == 'in' for i in gen.ifs):
+        return ['flag']
+    return None
+
+  def layers(e, env):
+    if isinstance(e, ast.Name) and e.id in env:
+      return list(env[e.id])
+    if dotted(e) == 'self._loaded_values':
+      return ['loaded']
+    if isinstance(e, ast.DictComp) and len(e.generators) == 1:
+      r = comp_layer(e.generators[0], e.key, e.value)
+      if r is not None:
+        return r
+    if isinstance(e, ast.Dict):
+      out = []
+      for k, v in zip(e.keys, e.values):
+        if k is not None:
+          return ['?' + norm(e)[:40]]
+        out += layers(v, env)
+      return out
+    if isinstance(e, ast.Call) and call_name(e) == 'dict' and len(
+        e.args) <= 1 and not e.keywords:
+      return layers(e.args[0], env) if e.args else []
+    if isinstance(e, ast.Call) and last_attr(e) == 'copy' and not e.args:
+      return layers(e.func.value, env)
+    return ['?' + norm(e)[:40]]
+
+  env = {}
+  result = None
+
+  def mentions(st, names):
+    return any(isinstance(x, ast.Name) and x.id in names for x in ast.walk(st))
+
+  def run(stmts):
+    nonlocal result
+    for st in stmts:
+      if isinstance(st, ast.Expr) and (isinstance(st.value, ast.Constant) or
+                                       cfgm.is_log_call(st.value)):
+        continue
+      if isinstance(st, ast.Assign) and len(st.targets) == 1 and isinstance(
+          st.targets[0], ast.Name):
+        env[st.targets[0].id] = layers(st.value, env)
+        continue
+      if isinstance(st, ast.Expr) and isinstance(st.value, ast.Call) and \
+          last_attr(st.value) == 'update' and isinstance(
+              st.value.func.value, ast.Name) and \
+          st.value.func.value.id in env and len(st.value.args) == 1:
+        env[st.value.func.value.id] += layers(st.value.args[0], env)
+        continue
+      if isinstance(st, ast.For) and norm(st.iter) == \
+          'self._flag_values.items()' and isinstance(st.target, ast.Tuple) \
+          and len(st.target.elts) == 2 and not st.orelse:
+        k, v = [dotted(e) for e in st.target.elts]
+        inner = [x for x in st.body if not (isinstance(x, ast.Expr) and (
+            isinstance(x.value, ast.Constant) or cfgm.is_log_call(x.value)))]
+        if len(inner) == 1 and isinstance(inner[0], ast.If) and \
+            _membership(inner[0].test, k, '_declarations') == 'in' and \
+            not inner[0].orelse:
+          body = [x for x in inner[0].body if not (isinstance(x, ast.Expr) and (
+              isinstance(x.value, ast.Constant) or
+              cfgm.is_log_call(x.value)))]
+          if len(body) == 1 and isinstance(body[0], ast.Assign) and isinstance(
+              body[0].targets[0], ast.Subscript) and isinstance(
+                  body[0].targets[0].value, ast.Name) and \
+              body[0].targets[0].value.id in env and dotted(
+                  body[0].targets[0].slice) == k and dotted(
+                      body[0].value) == v:
+            env[body[0].targets[0].value.id] += ['flag']
+            continue
+      if isinstance(st, ast.Return):
+        result = layers(st.value, env) if st.value is not None else []
+        return
+      if mentions(st, set(env)):
+        for nme in env:
+          if mentions(st, {nme}):
+            env[nme] += ['?' + norm(st)[:40]]
+  run(finfo.node.body)
+  return result
+
+
 def r2_views(report, repo):
   rule = 'C20-R2'
   report.rule(rule, 'T-SIB: __contains__ <=> __getitem__ returns; _asdict '
@@ -124,35 +222,14 @@ def r2_views(report, repo):
   lib.decision_table(report, rule, f, ['declared', 'flag', 'loaded', 'default'],
                      classify, spec)
   a = repo.func(CF, C + '._asdict')
-  body = [s for s in a.node.body if not (isinstance(s, ast.Expr) and isinstance(
-      s.value, ast.Constant))]
-  ok = len(body) == 4 and isinstance(body[0], ast.Assign) and isinstance(
-      body[0].value, ast.DictComp)
-  if ok:
-    dc = body[0].value
-    ok = dotted(dc.generators[0].iter) == 'self._declarations' and len(
-        dc.generators[0].ifs) == 1 and norm(dc.generators[0].ifs[0]).endswith(
-            '.has_default') and norm(dc.value).endswith('.default_value')
-    rv = dotted(body[0].targets[0])
-    ok = ok and isinstance(body[1], ast.Expr) and call_name(
-        body[1].value) == rv + '.update' and dotted(
-            body[1].value.args[0]) == 'self._loaded_values'
-    lp = body[2]
-    ok = ok and isinstance(lp, ast.For) and norm(lp.iter) == \
-        'self._flag_values.items()'
-    if ok:
-      k, val = [dotted(e) for e in lp.target.elts]
-      ok = len(lp.body) == 1 and isinstance(lp.body[0], ast.If) and \
-          _membership(lp.body[0].test, k, '_declarations') == 'in' and \
-          len(lp.body[0].body) == 1 and norm(lp.body[0].body[0]) == \
-          '%s[%s] = %s' % (rv, k, val) and not lp.body[0].orelse
-    ok = ok and isinstance(body[3], ast.Return) and dotted(body[3].value) == rv
+  got = _asdict_layers(a)
+  ok = got == ['default', 'loaded', 'flag']
   report.check(ok, rule, a.qualname, 'layering', a.node,
                '_asdict: defaults, then update(loaded), then flags of declared '
                'keys: the same winner per declared key as item access',
                '_asdict does not layer default -> loaded -> declared flags in '
-               'this order: the snapshot stored in test metadata disagrees '
-               'with item access')
+               'this order (layers found: %s): the snapshot stored in test '
+               'metadata disagrees with item access' % (got,))
   h = repo.func(CF, '_ConfigValueHolder.value')
   rets = [n for n in walk_no_nested(h.node) if isinstance(n, ast.Return)]
   report.check(len(rets) == 1 and norm(rets[0].value) ==
@@ -331,7 +408,8 @@ def r5_save_restore(report, repo):
     inner = s_.body if isinstance(s_, ast.With) and any(
         'lock' in (dotted(i.context_expr) or '').lower() for i in s_.items) \
         else [s_]
-    eff.extend(inner)
+    eff.extend(x for x in inner if not (isinstance(x, ast.Expr) and (
+        isinstance(x.value, ast.Constant) or cfgm.is_log_call(x.value))))
   ok = len(eff) == 1 and isinstance(eff[0], ast.Assign) and \
       dotted(eff[0].targets[0]) == 'self._loaded_values' and \
       dotted(eff[0].value) == name
